@@ -252,7 +252,7 @@ def _r2(ctx, pkg):
             for e in v[1]:
                 if e[0] == "star":
                     sub = members(e[1])
-                    out.extend(sub if sub is not None and e[1][0] in ("list", "tuple", "set", "binop") else [("star", keys_of(e[1]))])
+                    out.extend(sub if sub is not None and e[1][0] in ("list", "tuple", "set", "binop", "call") else [("star", keys_of(e[1]))])
                 else:
                     out.append(e)
             return out
